@@ -412,7 +412,7 @@ pub fn replay(v: &Value) -> Outcome {
 }
 
 pub fn run(env: &Env, known: &Known, started: Instant, replayed: u64, replay_violations: Vec<Violation>) -> i32 {
-    let cfg = ChoiceRun { env, pid: PID, part: "graphs", cases: env.tier.pick(40_000, 1_500_000), max_len: 600, known };
+    let cfg = ChoiceRun { env, pid: PID, part: "graphs", cases: env.tier.pick(120_000, 1_500_000), max_len: 600, known };
     // in child processes: unbounded recursion or allocation must become a violation, not a dead harness
     let iso = crate::isolate::run_choices_isolated(&cfg);
     let mut rr = iso.result;
